@@ -413,10 +413,10 @@ def oracle_att(case, out):
                 if st == "waiting_for_target_ready" and t in devs and truth["dev"][t] >= devs[t]["cap"]:
                     continue        # target is full (e.g. it is broken with a ball inside)
                 if st == "waiting_for_target_ready" and t in devs and any(
-                        it[0] == "P" and it[1] == "balldevice_%s_ball_missing" % s2
+                        it[0] == "P" and it[1] in ("balldevice_%s_ball_missing" % s2, "balldevice_%s_ball_eject_failed" % s2)
                         for s2 in devs[t]["sources"] if s2 != d for it in out["log"]):
-                    # another source's ball towards the same target was booked as lost: its incoming-ball entry was
-                    # removed, but nobody wakes the sources waiting in wait_for_ready_to_receive
+                    # another source's ball towards the same target fell back or was booked as lost: its incoming-ball
+                    # entry was removed, but nobody wakes the sources waiting in wait_for_ready_to_receive
                     # (fixes/C05-wake-source-when-incoming-ball-removed.patch)
                     fails.append({"sig": "stuck-waiting-for-slot-of-lost-incoming-ball", "what": "%s waits for room in "
                                   "%s for ever although %s has room: the slot was promised to a ball of another source "
